@@ -19,6 +19,7 @@ type c10ex struct {
 	base
 	a, b *world.Chan
 	fwd  bool
+	mode string // f: forward plain, g: forward grouped (VT_G1), b: backward plain, h: backward grouped (CC_G1)
 	ids  map[string]bool
 }
 
@@ -32,10 +33,26 @@ func (e *c10ex) u(name string) *simpeer.User {
 }
 
 func (e *c10ex) token() string {
+	switch e.mode {
+	case "g":
+		return "VT_G1"
+	case "h":
+		return "CC_G1"
+	}
 	if e.fwd {
 		return "VT"
 	}
 	return "CC"
+}
+
+// group balance G1 of an address (industrial balance), "0" when absent
+func groupBal(c *world.Chan, addr string) string {
+	p, _ := c.Query("industrialBalanceOf", addr)
+	var m map[string]string
+	if err := json.Unmarshal([]byte(p), &m); err != nil || m["G1"] == "" {
+		return "0"
+	}
+	return m["G1"]
 }
 
 func rawKey(c *world.Chan, objectType string, attrs ...string) string {
@@ -54,7 +71,8 @@ func (e *c10ex) Exec(op string) string {
 		if len(w) != 2 {
 			return "bad-op"
 		}
-		e.fwd = w[1] == "f"
+		e.mode = w[1]
+		e.fwd = w[1] == "f" || w[1] == "g"
 		e.a = wd.AddChannel("VT", world.Options{})
 		e.b = wd.AddChannel("CC", world.Options{})
 		e.b.L.State[rawKey(e.b, "2d", "VT")] = big.NewInt(1000000).Bytes()
@@ -73,10 +91,20 @@ func (e *c10ex) Exec(op string) string {
 		if len(w) != 3 || e.u(w[1]) == nil {
 			return "bad-op"
 		}
+		if e.mode == "g" {
+			return okErr(e.a.Do(wd.Issuer, "emitIndustrial", e.u(w[1]).Addr, w[2], "G1"))
+		}
 		if e.fwd {
 			return okErr(e.a.Do(wd.Issuer, "emit", e.u(w[1]).Addr, w[2]))
 		}
-		return okErr(e.a.Do(wd.Issuer, "emitAllowed", e.u(w[1]).Addr, "CC", w[2]))
+		return okErr(e.a.Do(wd.Issuer, "emitAllowed", e.u(w[1]).Addr, e.token(), w[2]))
+	case "fromadm":
+		if len(w) != 4 || e.u(w[2]) == nil {
+			return "bad-op"
+		}
+		e.ids[dec(w[1])] = true
+		e.nontrivial = true
+		return okErr(e.a.Do(wd.AdminU, "channelTransferByAdmin", dec(w[1]), "CC", e.u(w[2]).Addr, e.token(), w[3]))
 	case "from":
 		if len(w) != 4 || e.u(w[2]) == nil {
 			return "bad-op"
@@ -105,14 +133,26 @@ func (e *c10ex) Exec(op string) string {
 		return okErr(e.a.RobotBatched("cancelCCTransferFrom", w[1]))
 	case "dump":
 		var as, bs []string
+		stray := new(big.Int)
 		for _, n := range []string{"u0", "u1"} {
 			addr := e.u(n).Addr
-			if e.fwd {
+			switch e.mode {
+			case "f":
 				as = append(as, n+"="+bal(e.a, "balanceOf", addr))
 				bs = append(bs, n+"="+bal(e.b, "allowedBalanceOf", addr, "VT"))
-			} else {
+			case "g":
+				as = append(as, n+"="+groupBal(e.a, addr))
+				bs = append(bs, n+"="+bal(e.b, "allowedBalanceOf", addr, "VT_G1"))
+				stray.Add(stray, bigOf(bal(e.a, "balanceOf", addr)))
+				stray.Add(stray, bigOf(bal(e.b, "allowedBalanceOf", addr, "VT")))
+			case "b":
 				as = append(as, n+"="+bal(e.a, "allowedBalanceOf", addr, "CC"))
 				bs = append(bs, n+"="+bal(e.b, "balanceOf", addr))
+			default:
+				as = append(as, n+"="+bal(e.a, "allowedBalanceOf", addr, "CC_G1"))
+				bs = append(bs, n+"="+groupBal(e.b, addr))
+				stray.Add(stray, bigOf(bal(e.b, "balanceOf", addr)))
+				stray.Add(stray, bigOf(bal(e.a, "allowedBalanceOf", addr, "CC")))
 			}
 		}
 		gA := new(big.Int).SetBytes(e.a.L.State[rawKey(e.a, "2d", "CC")]).String()
@@ -142,9 +182,17 @@ func (e *c10ex) Exec(op string) string {
 				to = append(to, id)
 			}
 		}
-		return fmt.Sprintf("A:%s;B:%s;gA=%s;gB=%s;from=%s;to=%s", strings.Join(as, ","), strings.Join(bs, ","), gA, gB, orDash(fr, ","), orDash(to, ","))
+		return fmt.Sprintf("A:%s;B:%s;gA=%s;gB=%s;from=%s;to=%s;x=%s", strings.Join(as, ","), strings.Join(bs, ","), gA, gB, orDash(fr, ","), orDash(to, ","), stray.String())
 	}
 	return "bad-op"
+}
+
+func bigOf(s string) *big.Int {
+	n, ok := new(big.Int).SetString(s, 10)
+	if !ok {
+		return new(big.Int)
+	}
+	return n
 }
 
 func genC10(c *Cfg, emit func([]string)) {
@@ -155,8 +203,8 @@ func genC10(c *Cfg, emit func([]string)) {
 	if c.Thorough() {
 		depth = 6
 	}
-	alpha := []string{"from t1 u0 40", "to t1 u0 40", "commit t1", "delto t1", "delfrom t1", "cancel t1"}
-	for _, dir := range []string{"f", "b"} {
+	alpha := []string{"from t1 u0 40", "fromadm t1 u0 40", "to t1 u0 40", "commit t1", "delto t1", "delfrom t1", "cancel t1"}
+	for _, dir := range []string{"f", "b", "g", "h"} {
 		var rec func(prefix []string, d int)
 		rec = func(prefix []string, d int) {
 			if d == depth {
@@ -180,7 +228,7 @@ func genC10(c *Cfg, emit func([]string)) {
 				for j := 0; j < depth; j++ {
 					p = append(p, alpha[c.Rng.Intn(len(alpha))])
 				}
-				h := []string{"reset b", "fund u0 100"}
+				h := []string{"reset " + dir, "fund u0 100"}
 				for _, x := range p {
 					h = append(h, x, "dump")
 				}
@@ -195,7 +243,7 @@ func genC10(c *Cfg, emit func([]string)) {
 		nRand = 20000
 	}
 	for i := 0; i < nRand; i++ {
-		dir := []string{"f", "b"}[c.Rng.Intn(2)]
+		dir := []string{"f", "b", "g", "h"}[c.Rng.Intn(4)]
 		h := []string{"reset " + dir, "fund u0 100", "fund u1 50"}
 		type tr struct {
 			id, user string
@@ -208,7 +256,7 @@ func genC10(c *Cfg, emit func([]string)) {
 				id := fmt.Sprintf("t%d", 1+c.Rng.Intn(3))
 				u := users[c.Rng.Intn(2)]
 				amt := []int{0, 1, 40, 50, 100, 101}[c.Rng.Intn(6)]
-				h = append(h, fmt.Sprintf("from %s %s %d", id, u, amt))
+				h = append(h, fmt.Sprintf("%s %s %s %d", []string{"from", "from", "fromadm"}[c.Rng.Intn(3)], id, u, amt))
 				trs = append(trs, tr{id, u, amt})
 			} else {
 				t := trs[c.Rng.Intn(len(trs))]
